@@ -9,6 +9,8 @@ results = {}
 for nid in ids:
     d = os.path.join(nd, nid)
     meta = json.load(open(os.path.join(d, "meta.json")))
+    if meta.get("status") == "superseded":
+        print("%-14s superseded: %s" % (nid, meta.get("superseded_reason", "")[:140])); continue
     if meta.get("status") == "rejected":
         print("%-14s rejected: %s" % (nid, meta.get("rejected_reason", "")[:140])); continue
     repo = "/tmp/wt_neu_slot%s" % os.environ.get("VERIF_SEED_SLOT", "p%d" % os.getpid())
